@@ -24,15 +24,16 @@ TOs == /\ Tr[l].e = "Os"
        /\ LET e == Tr[l] IN
           /\ Judge(s.pc # "done", l, e, "an operating-system call after the source has reached its verdict")
           /\ Judge(s.pc = "done" \/ (e.fn = NextCall(s) /\ e.o \in Outcomes(s)), l, e, NextCall(s))
+          /\ Judge(s.pc # "opt" \/ e.o \notin {"OK", "PARTIAL"} \/ e.len < 32, l, e, "after a partial delivery only the remainder may be asked for")
           /\ Judge(e.fn \in {"open", "close"} \/ (e.len >= 1 /\ e.len <= 32), l, e, "asks for at most the 32 bytes of the seed")
           /\ s' = IF s.pc # "done" /\ e.o \in Outcomes(s) THEN TrngStep(s, e.o) ELSE s
        /\ variant' = variant
 
 TTrng == /\ Tr[l].e = "Trng"
          /\ LET e == Tr[l] IN
-            /\ Judge(s.pc = "done", l, e, "returned while the machine still expects an operating-system call: " \o NextCall(s))
+            /\ Judge(s.pc \in {"done", "opt"}, l, e, "returned while the machine still expects an operating-system call: " \o NextCall(s))
             /\ Judge(e.res = s.res, l, e, s.res)
-            /\ Judge(s.res = 1 => e.isos = 1, l, e, "on success the buffer holds exactly the 32 OS bytes")
+            /\ Judge((s.res = 1 /\ s.buf = "os") => e.isos = 1, l, e, "on success the buffer holds exactly the 32 OS bytes")
             /\ Judge(s.res = 0 => e.nonzero = 0, l, e, "on failure the seed buffer is all zero")
             /\ Judge(e.guard = 1 /\ e.fdleak = 0, l, e, "nothing outside the 32-byte buffer is written, no descriptor leaked")
          /\ s' = TrngInit(variant) /\ variant' = variant
